@@ -59,7 +59,8 @@ def gen(tier, rng, scale):
             base = 0x10000 * (p + 1)
             for l in range(nlib):
                 if rng.chance(2, 3):
-                    m = [p, l, base + 0x1000 * (2 * l), base + 0x1000 * (2 * l + 1), rng.choice([0, 0x100, 0x2000])]
+                    # (relative addresses are u32: ranges that straddle 2^31 and that end at 2^32 are as legal as small ones)
+                    m = [p, l, base + 0x1000 * (2 * l), base + 0x1000 * (2 * l + 1), rng.choice([0, 0x100, 0x2000, 0x2000, 0x7FFFF800, 0x80000000, 0xFFFFF000])]
                     ops.append(["M"] + m)
                     pmaps.setdefault(p, []).append(m[1:])
         # threads are registered in arbitrary order relative to other processes' threads
